@@ -59,6 +59,13 @@ def write_set(w, op):
         add_cont(op[2])
     elif k in ("add_attrs", "set_time", "add_type"):
         add_rec(op[1])
+    elif k == "peek" and op[2] == "attribute":
+        try:
+            r = w.rec(op[1])
+            if r.bundle is not None:
+                ws.add(id(r.bundle))  # get_attribute() resolves the name in the record's bundle
+        except Exception:
+            pass
     elif k == "add_record":
         add_cont(op[2])
     elif k in ("update", "update_bad"):
@@ -97,6 +104,7 @@ class C12(Oracle):
             "update": rng.choice([0, 2, 4]), "add_bundle": rng.choice([0, 2]),
             "doc_from": rng.choice([0, 2]), "unified": rng.choice([0, 3]),
             "flattened": rng.choice([0, 2]), "roundtrip": rng.choice([0, 1]),
+            "peek": rng.choice([0, 2]),
         }
         prof = {
             "w": w,
